@@ -219,6 +219,8 @@ pub fn run() {
     run_family("d:label-rules", &labels, &mut fam, &mut bad, &mut classes);
     let cc = corpus::char_class_programs();
     run_family("f:character-classes", &cc, &mut fam, &mut bad, &mut classes);
+    let longs = corpus::long_programs();
+    run_family("h:long-texts", &longs, &mut fam, &mut bad, &mut classes);
     // (e) short strings
     let shorts = corpus::short_strings(if quick { 4 } else { 5 });
     run_family("e:short-strings", &shorts, &mut fam, &mut bad, &mut classes);
